@@ -14,7 +14,8 @@ immediately (queue/active/waiting empty).
 
 Part "redirects" (inputs): a scripted chain of <=6 hops (301/302/303/307/308, Location drawn from 16 kinds:
 relative, absolute same origin, other host/port/scheme, scheme-relative, with userinfo, upper-case host,
-explicit default port, back to the origin, fragment, unsupported scheme, absent), optional interim 1xx
+explicit default port, back to the origin, fragment, unsupported scheme, absent, plus 12 unusable ones: unbalanced
+brackets, bad ports, empty, `http://`, TAB / control character, over-long), optional interim 1xx
 before a hop, terminal hop 200/404/connection closed/malformed; original request method
 GET/HEAD/POST/PUT/DELETE, body or body_producer, headers built from a dict or by repeated
 ``HTTPHeaders.add`` (multi-valued Cookie, Authorization, odd name case), auth_username/password, URL
@@ -53,6 +54,14 @@ Sensitivity (quick tier, seed 1, scratch copies of /repo/tornado, one mutant at 
       Found by independent mutation testing: earlier versions always passed max_redirects/follow_redirects per
       request, so the defaults channel was added to the strategy and to the chain-length x max_redirects grid
       (chains 0..6 x limits 0..5 x both channels; labels *_via_client_defaults).
+  M12 finish(): the take-over of the completion callback (final_callback = ...; self.final_callback = None; _release())
+      moved to the top of the redirect branch, before the follow-up URL is computed  -> caught at seeds 1,2,3
+      C09.fetch_never_completes (minimal: 302 with `Location: http://[::1`: urljoin raises ValueError after the callback
+      was taken over).  Found by independent mutation testing: Location values were always well-formed before; 12 kinds
+      were added (unbalanced brackets, port out of range / non-numeric with and without userinfo, empty, `http://`, TAB,
+      control character, 20 kB path, header block > 64 KiB).  For these the statement only demands that the fetch settles
+      exactly once (class "settle": error, the 3xx, or a best-effort follow-up; the "Uncaught exception" record for the
+      ValueError is by design), and every case now ends with a probe fetch that must get a slot and complete.
   (planned mutant "_on_timeout not removing from queue" is equivalent: _process_queue skips keys missing from
   `waiting`, so it was replaced by M6/M10.)  Pre-fix snapshot 59274db: F01 replay -> C09.cross_origin_cookie.
 """
@@ -378,7 +387,16 @@ def run_admission(ctx, case):
 # =========================================================================== part B: redirect chains
 LOC_KINDS = ["rel_abs_path", "rel_path", "dotdot", "abs_same", "other_host", "other_port", "other_scheme",
              "scheme_rel", "userinfo_other", "userinfo_same", "upper_host", "default_port", "back_origin",
-             "fragment", "ftp", "none"]
+             "fragment", "ftp", "none", "long_path",
+             # Location values the client cannot turn into a follow-up request (urllib raises ValueError while the new URL
+             # is built or inspected, or the target is unusable): the statement only requires that the fetch settles
+             "bad_bracket", "bad_bracket_rel", "bad_port_range", "bad_port_alpha", "userinfo_bad_port",
+             "userinfo_alpha_port", "empty", "scheme_only", "tab_inside",
+             # ... and 3xx responses that are themselves unusable (control character in Location, header block > 64 KiB)
+             "ctl_char", "too_long"]
+SETTLE_IF_FOLLOWED = {"bad_bracket", "bad_bracket_rel", "bad_port_range", "bad_port_alpha", "userinfo_bad_port",
+                      "userinfo_alpha_port", "empty", "scheme_only", "tab_inside"}
+SETTLE_ALWAYS = {"ctl_char", "too_long"}
 REDIRECT_CODES = [301, 302, 303, 307, 308]
 URL_KINDS = {
     "plain": "http://origin.test/start",
@@ -467,6 +485,30 @@ def make_location(kind, cur, orig, idx):
         return "ftp://files.test/%s" % m
     if kind == "none":
         return None
+    if kind == "long_path":
+        return "/" + "p" * 20000 + m
+    if kind == "bad_bracket":
+        return "http://[::1"
+    if kind == "bad_bracket_rel":
+        return "//[oops/x"
+    if kind == "bad_port_range":
+        return "%s://other0.test:99999/%s" % (p.scheme, m)
+    if kind == "bad_port_alpha":
+        return "%s://other0.test:abc/%s" % (p.scheme, m)
+    if kind == "userinfo_bad_port":
+        return "%s://u2:p2@other0.test:99999/%s" % (p.scheme, m)
+    if kind == "userinfo_alpha_port":
+        return "%s://u2:p2@other0.test:abc/%s" % (p.scheme, m)
+    if kind == "empty":
+        return ""
+    if kind == "scheme_only":
+        return "http://"
+    if kind == "tab_inside":
+        return "/%s\tx" % m
+    if kind == "ctl_char":
+        return "/%s\x01x" % m
+    if kind == "too_long":
+        return "/" + m + "a" * 70000
     raise AssertionError(kind)
 
 
@@ -486,7 +528,7 @@ def plan_chain(case):
     rewritten = False
     either_method = False
     facts = {"followed_interim": False, "producer_rewrite": False, "followup_failure": False, "cross_with_creds": False,
-             "followed": 0, "post_303": False}
+             "followed": 0, "post_303": False, "malformed_location": False}
     i = 0
     while True:
         expected.append({"url": url, "method": method, "body": body, "producer": producer, "rewritten": rewritten,
@@ -502,6 +544,11 @@ def plan_chain(case):
             if hop["interim"]:
                 resp = b"HTTP/1.1 100 Continue\r\n\r\n" + resp
             responses.append((resp, hop["eof"]))
+            if hop["loc"] in SETTLE_ALWAYS or (hop["loc"] in SETTLE_IF_FOLLOWED and remaining > 0):
+                # EITHER: error, the 3xx itself, or whatever a best-effort follow-up yields - but the fetch must settle
+                facts["malformed_location"] = True
+                outcome = ("settle", hop["loc"])
+                break
             if loc is not None and remaining > 0:
                 new_url = urljoin(url, loc)
                 facts["followed"] += 1
@@ -656,6 +703,19 @@ def run_redirects(ctx, case):
         st_["done_count"] = dc.count
         st_["received"] = received
         st_["idle"] = (len(client.active), len(client.queue), len(client.waiting))
+        if fut.done():
+            # a later fetch must still get a slot and complete (nothing of the finished fetch blocks the client)
+            n0 = len(fake.calls)
+            probe = client.fetch("http://probe.test/", raise_error=False, follow_redirects=False)
+            await ch.settle(fake)
+            new = [c for c in fake.calls[n0:] if c.host == "probe.test" and c.stream is not None]
+            if not new:
+                st_["probe"] = "not_started"
+            else:
+                new[0].tag = "probe"
+                new[0].stream.feed(b"HTTP/1.1 200 OK\r\nContent-Length: 0\r\n\r\n")
+                await ch.settle(fake)
+                st_["probe"] = "done" if probe.done() else "pending"
         for c in fake.calls:
             if c.stream is not None and not c.stream.closed():
                 c.stream.close()
@@ -690,6 +750,8 @@ def run_redirects(ctx, case):
     # ---- number and destination of requests
     if len(received) > case["max_redirects"] + 1 or (not case["follow"] and len(received) > 1):
         ctx.fail("C09.more_requests_than_max_redirects", base, sig=sig_interim or "C09.more_requests_than_max_redirects")
+    elif want[0] == "settle" and len(received) >= len(expected):
+        pass  # a best-effort follow-up for an unusable Location is allowed (still bounded by max_redirects above)
     elif len(received) != len(expected):
         # attribute by symptom: extra requests are the duplicates of the interim finding, missing ones come from a
         # follow-up that failed before it was written (body_producer finding)
@@ -700,7 +762,7 @@ def run_redirects(ctx, case):
         ctx.fail("C09.request_count", dict(base, expected=len(expected)), sig=sig or "C09.request_count")
     crossed_with_creds = False
     for j, (c, raw) in enumerate(received[: len(expected)]):
-        if len(received) != len(expected) or facts["followed_interim"]:
+        if (len(received) != len(expected) and want[0] != "settle") or len(received) < len(expected) or facts["followed_interim"]:
             # positions are unreliable: the count clause already reported it / the open "followed twice after an
             # interim response" finding duplicates requests (those cases are accounted under that finding only)
             break
@@ -747,7 +809,9 @@ def run_redirects(ctx, case):
                 crossed_with_creds = True
     # ---- final outcome
     if o[0] != "pending":
-        if want[0] == "response":
+        if want[0] == "settle":
+            pass
+        elif want[0] == "response":
             if o[0] != "response" or o[1].code != want[1] or (case_method_has_body(expected[-1]) and o[1].body != want[2]):
                 ctx.fail("C09.final_response", base, sig=sig_producer or sig_interim or "C09.final_response")
         else:
@@ -755,7 +819,11 @@ def run_redirects(ctx, case):
                 ctx.fail("C09.final_error_expected", base, sig=sig_producer or "C09.final_error_expected")
     if st_["idle"] != (0, 0, 0) and o[0] != "pending":
         ctx.fail("C09.client_not_idle", dict(base, state=st_["idle"]), sig=sig_interim or sig_producer or "C09.client_not_idle")
+    if o[0] != "pending" and st_.get("probe") != "done":
+        ctx.fail("C09.later_fetch_blocked", dict(base, probe=st_.get("probe"), state=st_["idle"]))
     bad = [r for r in logs.errors() if "Exception in callback" in r[2] or "ncaught" in r[2]]
+    if want[0] == "settle":
+        bad = []  # a ValueError from urllib while the follow-up is built is logged ("Uncaught exception") by design
     if bad:
         if o[0] == "pending":
             # the follow-up's error was raised inside the done callback, so the fetch never completed
@@ -790,6 +858,9 @@ def run_redirects(ctx, case):
         labels.add("interim_before_followed_redirect")
     if facts["followup_failure"]:
         labels.add("followup_failure")
+    if facts["malformed_location"]:
+        labels.add("malformed_location")
+        labels.add("malformed_location_outcome_" + o[0])
     if crossed_with_creds:
         labels.add("cross_origin_with_credentials")
     for h in case["hops"][: facts["followed"]]:
